@@ -164,7 +164,13 @@ def run_check(prop: str, tier: str, rx_part: Any = None) -> int:
     idxs = list(range(0, len(traces), step))[:ncf]
     ctext = "SPECIFICATION TraceSpec\n" + const_text(sw, 1000, [], [], [], cfgs="Cfgs = {}") + \
             "INVARIANT Progress\nPOSTCONDITION Done\nCHECK_DEADLOCK FALSE\n"
-    cf = mbt.conform([traces[i] for i in idxs], "TraceClient", ctext)
+    try:
+        cf = mbt.conform([traces[i] for i in idxs], "TraceClient", ctext)
+    except tlc.TLCError as exc:
+        if not rep.violations:
+            raise
+        rep.info('conformance run failed after violations were found: ' + str(exc)[:300])
+        cf = []
     accepted = sum(1 for a, b_ in cf if a == b_)
     for (a, b_), i in zip(cf, idxs):
         if a != b_:
